@@ -100,7 +100,8 @@ Definition archive_obs (file : bytes) (addrs : list bytes) : obs :=
               | IOk l => (0, N.of_nat (length l)) | IErr => (2, 0) | IPanic => (3, 0) | IAny => (4, 0) end in
     {| o_open := 0;
        o_res := map (fun h => (has_code (ahas a h), gres_code (aget crc32c file a h))) addrs;
-       o_iter := fst it; o_itern := snd it; o_gm := 4;
+       o_iter := fst it; o_itern := snd it;
+       o_gm := match aget_many a addrs with GMCrash => 3 | GMNoCrash => 0 end;
        o_class := 0; o_recs := []; o_off := 0; o_man := None; o_extra := [] |}
   end.
 
